@@ -92,8 +92,9 @@ Proof. eexists. split; vm_compute; reflexivity. Qed.
 
 (* ------------------------------------------------------------------ the meaning of filters (Sem.v) *)
 (* The statement of the property for filters: the rows the generated WHERE clause selects are exactly the rows
-   that satisfy every filter under its documented (three-valued) meaning.  False as it stands: the generator
-   writes HAS(...) lists and NOT operands without parentheses (C14_filter_meaning_refuted). *)
+   that satisfy every filter under its documented (three-valued) meaning.  It was false for the generator before the
+   repair, which wrote HAS(...) lists without parentheses (C14_filter_meaning_old_refuted); C14_filter_rows proves
+   it for all well formed filters. *)
 Definition C14_meaning_statement : Prop :=
   forall fs r, fs <> [] -> sql_selects r (where_ast fs) = forallb (selects r) fs.
 
@@ -109,13 +110,28 @@ Theorem C14_filter_rows_partial :
   forall fs r, safe_where fs = true -> sql_selects r (where_ast fs) = forallb (selects r) fs.
 Proof. intros fs r H. exact (where_selects r fs H). Qed.
 
-(* AND(EQ(a,1), HAS(foo,'x','y')) is written ("a" = 1) AND POSITION('x' IN "foo") > 0 OR POSITION('y' IN "foo") > 0:
-   a row with a = 2 and foo = 'zzy' is selected although the filter does not hold; the expression is the one SQL's
-   grammar gives the generated text (parse_where of its token stream) *)
-Theorem C14_filter_meaning_refuted :
-  selects bad_row bad_filter = false /\ sql_selects bad_row (where_ast [bad_filter]) = true /\
+(* With the repaired generator (multi-value HAS / HASALL lists in parentheses) no precedence guard is needed:
+   for every non-empty list of well formed filters (AND / OR of two or more, HAS / HASALL with at least one
+   value), every row, NULLs included *)
+Theorem C14_filter_meaning :
+  forall fs r, fs <> [] -> forallb wf fs = true ->
+    truth (eval_sql r (where_ast fs)) = fold_right and3 (Some true) (List.map (eval_filter r) fs).
+Proof. exact filter_meaning. Qed.
+Theorem C14_filter_rows :
+  forall fs r, fs <> [] -> forallb wf fs = true -> sql_selects r (where_ast fs) = forallb (selects r) fs.
+Proof. exact filter_rows. Qed.
+
+(* the generator before the repair: AND(EQ(a,1), HAS(foo,'x','y')) was written
+   ("a" = 1) AND POSITION('x' IN "foo") > 0 OR POSITION('y' IN "foo") > 0: a row with a = 2 and foo = 'zzy' was selected
+   although the filter does not hold (where_ast_old is what SQL's grammar makes of the old text); the repaired text
+   does not select it *)
+Theorem C14_filter_meaning_old_refuted :
+  wf bad_filter = true /\
+  selects bad_row bad_filter = false /\ sql_selects bad_row (where_ast_old [bad_filter]) = true /\
+  parse_where (sql_lex (fst (gen_where_old [bad_filter]))) = Some (where_ast_old [bad_filter]) /\
+  sql_selects bad_row (where_ast [bad_filter]) = false /\
   parse_where (sql_lex (fst (gen_where [bad_filter]))) = Some (where_ast [bad_filter]).
-Proof. exact meaning_refuted. Qed.
+Proof. exact meaning_old_refuted. Qed.
 
 (* the text written for a filter list (any filters, no NUL bytes) lexes to its template *)
 Theorem C14_gen_where_confined :
@@ -125,14 +141,14 @@ Proof. exact gen_where_confined. Qed.
 Definition ex_filters : list filter :=
   [FOr [FCmp CLt (OCol (s2l "age")) (OInt 18); FNot (FCmp CGe (OCol (s2l "name")) (OStr (s2l "M'")));
         FHas false (s2l "city") [s2l "o"; s2l "x"]];
-   FHas true (s2l "name") [s2l "a"; s2l "r"]; FNot (FIsNull (s2l "city"))].
+   FHas true (s2l "name") [s2l "a"; s2l "r"]; FNot (FHas false (s2l "city") [s2l "q"; s2l "z"]); FNot (FIsNull (s2l "city"))].
 Definition ex_row : trow := [(s2l "id", VInt 2); (s2l "name", VText (s2l "Mary")); (s2l "city", VText (s2l "Rome")); (s2l "age", VNull)].
 Example C14_meaning_nonvacuous :
-  safe_where ex_filters = true /\ Forall filter_ok ex_filters /\
+  ex_filters <> [] /\ forallb wf ex_filters = true /\ safe_where ex_filters = true /\ Forall filter_ok ex_filters /\
   forallb (selects ex_row) ex_filters = true /\ sql_selects ex_row (where_ast ex_filters) = true /\
   parse_where (sql_lex (fst (gen_where ex_filters))) = Some (where_ast ex_filters) /\
   eval_filter ex_row (FCmp CLt (OCol (s2l "age")) (OInt 18)) = None.
-Proof. split; [reflexivity|]. split; [repeat constructor|]. vm_compute. repeat split. Qed.
+Proof. split; [discriminate|]. split; [reflexivity|]. split; [reflexivity|]. split; [repeat constructor|]. vm_compute. repeat split. Qed.
 
 (* ------------------------------------------------------------------ from the text to the expression (SemParse.v) *)
 (* For filters whose parts are all atoms (comparisons, null tests, AND / OR lists, NOT, single-value HAS / HASALL):
@@ -159,3 +175,19 @@ Example C14_parses_nonvacuous :
   parse_where (sql_lex (fst (gen_where ex_atomic))) = parse_where2 (sql_lex (fst (gen_where ex_atomic))) /\
   forallb (selects ex_row) ex_atomic = true.
 Proof. split; [discriminate|]. split; [reflexivity|]. split; [repeat constructor|]. vm_compute. split; reflexivity. Qed.
+
+(* the same for every well formed filter list, multi-value HAS / HASALL included (they are parenthesised now) *)
+Theorem C14_where_parses :
+  forall fs, fs <> [] -> forallb wf fs = true -> Forall filter_ok fs ->
+    parse_where2 (sql_lex (fst (gen_where fs))) = Some (where_ast fs).
+Proof. exact where_text_parses_wf. Qed.
+Theorem C14_filter_text_meaning :
+  forall fs, fs <> [] -> forallb wf fs = true -> Forall filter_ok fs ->
+    exists e, parse_where2 (sql_lex (fst (gen_where fs))) = Some e /\
+              forall r, sql_selects r e = forallb (selects r) fs.
+Proof. exact text_meaning_wf. Qed.
+Example C14_text_meaning_nonvacuous :
+  forallb wf ex_filters = true /\ Forall filter_ok ex_filters /\
+  parse_where2 (sql_lex (fst (gen_where ex_filters))) = Some (where_ast ex_filters) /\
+  fst (gen_where [bad_filter]) = s2l "WHERE ((""a"" = 1)  AND  (POSITION('x' IN ""foo"") > 0 OR POSITION('y' IN ""foo"") > 0))".
+Proof. split; [reflexivity|]. split; [repeat constructor|]. vm_compute. split; reflexivity. Qed.
